@@ -443,9 +443,9 @@ from . import scenarios  # noqa: E402
 
 REGISTRY["C09"]["engines"] = list(REGISTRY["C09"]["engines"]) + [engine_khist.run]
 REGISTRY["C09"]["rule"] += " || " + HIST_RULE
-for _p in ("C09", "C14", "C17"):
+for _p in ("C09", "C14", "C17", "C16", "C10", "C13"):
     REGISTRY[_p]["engines"] = list(REGISTRY[_p]["engines"]) + [scenarios.run]
-    REGISTRY[_p]["rule"] += " || hand-written multi-call scenarios without the controller (harness/scenarios.py): failing calls that leave nodes running followed by another failing call; a node calling another DAG at run time; the first awaits of an AsyncDAG started together"
+    REGISTRY[_p]["rule"] += " || hand-written scenarios without the controller (harness/scenarios.py): failing calls that leave nodes running followed by another failing call; a node calling another DAG at run time; the first awaits of an AsyncDAG started together; a failing async node with a running sibling; concurrent builds under a tiny switch interval; a debug node inside a deactivated nested DAG"
 
 REGISTRY["C02"]["engines"] = [engine_ksched, engine_kvalue.run]
 REGISTRY["C02"]["rule"] = SCHED_RULE + " || " + VALUE_RULE
